@@ -172,15 +172,18 @@ Fixpoint sops_of (gs : list gate) : option (list sop) :=
       end
   end.
 
-Lemma rot_checks j :
-  L1b (of_mat1 (M_RX j)) (m_RX_branch j) = true /\ L1b (of_mat1 (M_RY j)) (m_RY_branch j) = true
-  /\ L1b (of_mat1 (M_RZ j)) (m_RZ_branch j) = true.
-Proof. destruct j as [|[|[|j]]]; repeat split; vm_compute; reflexivity. Qed.
-
-Lemma crot_checks j :
-  L2b (of_mat2 (M_CRX j)) (m_CRX_branch j) = true /\ L2b (of_mat2 (M_CRY j)) (m_CRY_branch j) = true
-  /\ L2b (of_mat2 (M_CRZ j)) (m_CRZ_branch j) = true.
-Proof. destruct j as [|[|[|j]]]; repeat split; vm_compute; reflexivity. Qed.
+Lemma rx_check j : L1b (of_mat1 (M_RX j)) (m_RX_branch j) = true.
+Proof. destruct j as [|[|[|j]]]; vm_compute; reflexivity. Qed.
+Lemma ry_check j : L1b (of_mat1 (M_RY j)) (m_RY_branch j) = true.
+Proof. destruct j as [|[|[|j]]]; vm_compute; reflexivity. Qed.
+Lemma rz_check j : L1b (of_mat1 (M_RZ j)) (m_RZ_branch j) = true.
+Proof. destruct j as [|[|[|j]]]; vm_compute; reflexivity. Qed.
+Lemma crx_check j : L2b (of_mat2 (M_CRX j)) (m_CRX_branch j) = true.
+Proof. destruct j as [|[|[|j]]]; vm_compute; reflexivity. Qed.
+Lemma cry_check j : L2b (of_mat2 (M_CRY j)) (m_CRY_branch j) = true.
+Proof. destruct j as [|[|[|j]]]; vm_compute; reflexivity. Qed.
+Lemma crz_check j : L2b (of_mat2 (M_CRZ j)) (m_CRZ_branch j) = true.
+Proof. destruct j as [|[|[|j]]]; vm_compute; reflexivity. Qed.
 
 Lemma sop_of_gate_ok g s : sop_of_gate g = Some s ->
   sop_check s = true /\ apply_gate_clifford g = AOp (sop_op s).
@@ -189,10 +192,15 @@ Proof.
   destruct (negb (args_cover_qubits g)); [discriminate|].
   destruct (g_cls g); destruct (g_args g) as [|q [|t [|u l]]]; destruct (g_kw g) as [th|];
     try discriminate; intros H.
-  all: try (injection H as <-; split; [vm_compute; reflexivity | reflexivity]).
-  all: try (injection H as <-; split; [cbn [sop_check]; apply rot_checks | reflexivity]).
-  all: destruct (crot_branch th) as [j|]; [|discriminate]; injection H as <-;
-       split; [cbn [sop_check]; apply crot_checks | reflexivity].
+  all: lazymatch type of H with
+       | context [crot_branch] =>
+           destruct (crot_branch th) as [j|]; [|discriminate]; injection H as <-;
+           split; [cbn [sop_check]; first [apply crx_check | apply cry_check | apply crz_check] | reflexivity]
+       | context [rot_branch] =>
+           injection H as <-;
+           split; [cbn [sop_check]; first [apply rx_check | apply ry_check | apply rz_check] | reflexivity]
+       | _ => injection H as <-; split; [vm_compute; reflexivity | reflexivity]
+       end.
 Qed.
 
 Lemma run_gates_sops : forall gs l T, sops_of gs = Some l ->
